@@ -1,6 +1,106 @@
-(** Entry points for C12 (stub: replaced by the property's own entry file). *)
-From Coq Require Import ZArith List.
-From GV Require Import Base.Val.
+(** Entry points for C12 (signature files: store protocol of src/gambit/sigs/hdf5.py).
+    Wire format (see Base/Val.v):
+      str    = list of code points;  option = () / (x);  ity = 0..7 (U8 U16 U32 U64 I8 I16 I32 I64)
+      coll   = (k prefix ity sigs ids meta);  ids = (0 ity ints) | (1 strs)
+      meta   = (id name id_attr version description extra_json_text)   -- each an option of str
+      aval   = (0 z) | (1 str) | (2);   dset = (0 ity ints) | (1 strs)
+      store  = (((key aval) ...) ((key dset) ...));   disk = (0 bytes) unopenable | (1 store) | (2 bytes) opens, root unreadable
+      path   = 0 whole-array | 1 per-signature
+      result = (0 payload) | (1 code)  code: 1 SignaturesFileError 2 ValueError 3 KeyError 4 OSError
+                                             5 TypeError 6 IndexError 7 outside-the-model *)
+From Coq Require Import ZArith List Bool.
+From GV Require Import Base.Val Model.Store.
+Import ListNotations.
 Open Scope Z_scope.
 
-Definition dispatch (op : Z) (a : val) : val := vbad.
+Definition ity_code (t : ity) : Z :=
+  match t with U8 => 0 | U16 => 1 | U32 => 2 | U64 => 3 | I8 => 4 | I16 => 5 | I32 => 6 | I64 => 7 end.
+Definition to_ity (v : val) : ity :=
+  match to_Z v with 0 => U8 | 1 => U16 | 2 => U32 | 3 => U64 | 4 => I8 | 5 => I16 | 6 => I32 | _ => I64 end.
+Definition serr_code (e : serr) : Z :=
+  match e with ESigFile => 1 | EValue => 2 | EKey => 3 | EOS => 4 | EType => 5 | EIndex => 6 | EMalformed => 7 end.
+Definition vsres {A} (f : A -> val) (r : sres A) : val :=
+  match r with SOk a => vok (f a) | SErr e => verr (serr_code e) end.
+
+Definition vZl (l : list Z) : val := VL (map VI l).
+Definition vstrs (l : list str) : val := VL (map vZl l).
+Definition to_strs (v : val) : list str := map to_Zs (to_list v).
+
+Definition to_ids (v : val) : ids :=
+  match v with
+  | VL [VI 0; t; l] => IdInts (to_ity t) (to_Zs l)
+  | VL [_; l] => IdStrs (to_strs l)
+  | _ => IdStrs []
+  end.
+Definition vids (i : ids) : val :=
+  match i with IdInts t l => VL [VI 0; VI (ity_code t); vZl l] | IdStrs l => VL [VI 1; vstrs l] end.
+
+Definition to_meta (v : val) : meta :=
+  match v with
+  | VL [a; b; c; d; e; f] =>
+      {| m_id := to_opt to_Zs a; m_name := to_opt to_Zs b; m_id_attr := to_opt to_Zs c;
+         m_version := to_opt to_Zs d; m_desc := to_opt to_Zs e; m_extra := to_opt to_Zs f |}
+  | _ => {| m_id := None; m_name := None; m_id_attr := None; m_version := None; m_desc := None; m_extra := None |}
+  end.
+Definition vmeta (m : meta) : val :=
+  VL [vopt vZl m.(m_id); vopt vZl m.(m_name); vopt vZl m.(m_id_attr); vopt vZl m.(m_version);
+      vopt vZl m.(m_desc); vopt vZl m.(m_extra)].
+
+Definition to_coll (v : val) : option coll :=
+  match v with
+  | VL [VI k; p; t; s; i; m] =>
+      Some {| c_k := k; c_prefix := to_Zs p; c_ty := to_ity t; c_sigs := map to_Zs (to_list s);
+              c_ids := to_ids i; c_meta := to_meta m |}
+  | _ => None
+  end.
+Definition to_path (v : val) : wpath := if to_Z v =? 0 then Whole else PerSig.
+
+Definition vaval (a : aval) : val :=
+  match a with AInt z => VL [VI 0; VI z] | AStr s => VL [VI 1; vZl s] | AEmpty => VL [VI 2] end.
+Definition to_aval (v : val) : aval :=
+  match v with VL [VI 0; VI z] => AInt z | VL [VI 1; s] => AStr (to_Zs s) | _ => AEmpty end.
+Definition vdset (d : dset) : val :=
+  match d with DInt t l => VL [VI 0; VI (ity_code t); vZl l] | DStr l => VL [VI 1; vstrs l] end.
+Definition to_dset (v : val) : dset :=
+  match v with VL [VI 0; t; l] => DInt (to_ity t) (to_Zs l) | VL [_; l] => DStr (to_strs l) | _ => DStr [] end.
+Definition vstore (st : store) : val :=
+  VL [VL (map (fun p => VL [VI (fst p); vaval (snd p)]) st.(attrs));
+      VL (map (fun p => VL [VI (fst p); vdset (snd p)]) st.(dsets))].
+Definition to_kv {V} (f : val -> V) (v : val) : Z * V :=
+  match v with VL [VI k; x] => (k, f x) | _ => (-1, f (VL [])) end.
+Definition to_store (v : val) : store :=
+  match v with
+  | VL [a; d] => {| attrs := map (to_kv to_aval) (to_list a); dsets := map (to_kv to_dset) (to_list d) |}
+  | _ => empty_store
+  end.
+Definition to_disk (v : val) : disk :=
+  match v with VL [VI 0; b] => DRaw (to_Zs b) | VL [VI 2; b] => DBadRoot (to_Zs b) | VL [_; s] => DHdf (to_store s) | _ => DRaw [] end.
+
+Definition vloaded (l : loaded) : val :=
+  VL [VI l.(l_k); vZl l.(l_prefix); vmeta l.(l_meta); vids l.(l_ids); VI (ity_code l.(l_ty));
+      vZl l.(l_values); vZl l.(l_bounds)].
+Definition vsigs (s : list (list Z)) : val := VL (map vZl s).
+
+Definition written (p c : val) : sres loaded :=
+  match to_coll c with
+  | Some c => sbind (create (to_path p) c) (fun st => load_file (DHdf st))
+  | None => SErr EMalformed
+  end.
+
+Definition dispatch (op : Z) (a : val) : val :=
+  match op with
+  | 1 => match a with VL [p; c] => match to_coll c with Some c => vsres vstore (create (to_path p) c) | None => vbad end
+                  | _ => vbad end
+  | 2 => match a with VL [p; c] => vsres vloaded (written p c) | _ => vbad end
+  | 3 => vsres vloaded (load_file (to_disk a))
+  | 4 => vsres vloaded (load_file_cur (to_disk a))
+  | 5 => match a with VL [p; c; idx] => vsres vsigs (sbind (written p c) (fun l => getitem_list l (to_Zs idx))) | _ => vbad end
+  | 6 => match a with
+         | VL [p; c; VI start; VI stop] =>
+             vsres (fun r => VL [vloaded (fst r); vsigs (snd r)])
+                   (sbind (written p c) (fun l => sbind (getitem_slice l start stop) (fun s =>
+                    sbind (decode s) (fun d => SOk (s, d)))))
+         | _ => vbad end
+  | 7 => match a with VL [p; c] => vsres vsigs (sbind (written p c) decode) | _ => vbad end
+  | _ => vbad
+  end.
